@@ -78,6 +78,11 @@ def make_world(rng):
         text, _ins = gen.gen_listing(rng, n=rng.randrange(10, 40), branch_targets=targets)
         files[f"{d_in}a{i}.s"] = text
         listings.append(f"{d_in}a{i}.s")
+    if rng.random() < 0.4:
+        # a listing without a single instruction: headers only / nothing at all
+        nm = f"{d_in}a_empty.s"
+        files[nm] = rng.choice(["", "\n", "\nempty.o:     file format elf64-x86-64\n\n"])
+        listings.append(nm)
     if rng.random() < 0.5:
         text, _blk = gen.gen_listing_repeated(rng)
         files[f"{d_in}a_rep.s"] = text
@@ -254,6 +259,44 @@ def make_world(rng):
         for i, li in enumerate(listings):
             files[d_rules + li] = files[listings[(i + 1) % len(listings)]] if len(listings) > 1 else "\n"
 
+    # ---- rule features with tables/registries of their own: $and_any_order of several sizes, times variants, $deref with captures
+    if listings:
+        li = rng.choice(listings)
+        dec = gen.decode_listing(files[li])
+        for size in (2, 3, 4):
+            its = _window_items(rng, dec, size, substr=True, with_ops_p=0.3)
+            if its:
+                sh = list(its)
+                rng.shuffle(sh)
+                add("anyorder", f"n{size}", {"pattern": [{"$and_any_order": sh}]}, li)
+                add("anyorder", f"n{size}_times", {"pattern": [{"$and_any_order": sh, "times": {"min": 1, "max": 2}}]}, li)
+        its = _window_items(rng, dec, 2, substr=True, with_ops_p=0.0)
+        if its and all(isinstance(x, str) for x in its):
+            for vname, t in (("none", None), ("two", 2), ("range", {"min": 1, "max": 3}), ("opt", {"min": 0, "max": 1})):
+                first = its[0] if t is None else {its[0]: {"times": t}}
+                add("times", vname, {"pattern": [first, its[1]]}, li)
+        mem = [(a, mn, ops) for (a, mn, ops) in dec if mn and gen._SAFE.match(mn) and any(gen._MEM.match(o) and gen._MEM.match(o).group(2) and not o.startswith("-") for o in ops)]
+        if mem:
+            (_a, mn, ops) = rng.choice(mem)
+            pats = []
+            for o in ops:
+                pp = gen.operand_pattern(rng, o, substr_ok=False)
+                if pp is None:
+                    break
+                pats.append(pp)
+            if pats and any(isinstance(x, dict) for x in pats):
+                add("deref", "plain", {"pattern": [{mn: copy.deepcopy(pats)}]}, li)
+                cap = copy.deepcopy(pats)
+                for x in cap:
+                    if isinstance(x, dict):
+                        x["$deref"]["main_reg"] = "&dreg"
+                add("deref", "captured_reg", {"pattern": [{mn: cap}]}, li)
+                orr = copy.deepcopy(pats)
+                for x in orr:
+                    if isinstance(x, dict):
+                        x["$deref"]["main_reg"] = [{"$or": [x["$deref"]["main_reg"], "%xmm7"]}]
+                add("deref", "or_in_field", {"pattern": [{mn: orr}]}, li)
+
     # ---- matches that are empty, and matches that are very long (several kB of text in one element)
     if listings:
         li = rng.choice(listings)
@@ -272,6 +315,7 @@ def make_world(rng):
         add("longmatch", "run", {"pattern": [{"push": {"times": {"min": 100, "max": 500}}}]}, nm)
         add("longmatch", "run_ret", {"pattern": [{"push": [reg], "times": {"min": 50, "max": 450}}, "ret"]}, nm)
         add("longmatch", "halves", {"pattern": [{"push": {"times": n_run // 2}}]}, nm)
+        add("longmatch", "each", {"pattern": ["push"]}, nm)  # hundreds of matches in all-matches mode
 
     # ---- scalars whose meaning depends on YAML's implicit typing (unquoted hex / binary / octal ints, yes/no booleans)
     if listings:
